@@ -563,6 +563,10 @@ func (ssc *defaultStatefulSetControl) updateStatefulSet(
 	if set.Spec.UpdateStrategy.RollingUpdate != nil && set.Spec.UpdateStrategy.RollingUpdate.Partition != nil {
 		updateMin = int(*set.Spec.UpdateStrategy.RollingUpdate.Partition)
 	}
+	if updateMin < 0 {
+		// a negative partition is admitted by the CRD schema; it selects every ordinal
+		updateMin = 0
+	}
 	// we terminate the Pod with the largest ordinal that does not match the update revision.
 	for target := len(replicas) - 1; target >= updateMin; target-- {
 		if replicas[target] == nil {
